@@ -945,6 +945,7 @@ func main() {
 	runQR()
 	runDM()
 	runOneD()
+	runLargeScales()
 	runHistory()
 	chk.Finish()
 }
